@@ -28,6 +28,7 @@ type GValue struct {
 	Fields []GObjField `json:"fields,omitempty"`
 	Type   *TypeRef    `json:"type,omitempty"` // expected type at this position
 	Const  bool        `json:"const,omitempty"`
+	Free   bool        `json:"free,omitempty"` // nested inside a literal for a custom scalar: no expected type
 }
 
 type GObjField struct {
@@ -205,7 +206,61 @@ func (g *docGen) intLit() string {
 	return hx.Pick(g.r, []string{"0", "1", "-1", "7", "42", "2147483647", "-2147483648", "-0", "100"})
 }
 
-func (g *docGen) scalarLit(name string, t *TypeDesc) *GValue {
+// freeValue generates a value nested inside a list or object literal for a custom scalar: it has
+// no expected type, anything goes — variables of any type included (F-04g).
+func (g *docGen) freeValue(constant bool, depth int) *GValue {
+	out := g.freeValue1(constant, depth)
+	out.Free = true
+	out.Const = constant
+	return out
+}
+
+func (g *docGen) freeValue1(constant bool, depth int) *GValue {
+	c := g.r.Intn(9)
+	switch {
+	case c <= 2 && !constant && !g.constOnly:
+		return g.freeVar()
+	case c == 3 && depth < 3:
+		out := &GValue{Kind: "list"}
+		for i, n := 0, g.r.Range(0, 2); i < n; i++ {
+			out.Items = append(out.Items, g.freeValue(constant, depth+1))
+		}
+		return out
+	case c == 4 && depth < 3:
+		out := &GValue{Kind: "object"}
+		for i, n := 0, g.r.Range(1, 2); i < n; i++ {
+			out.Fields = append(out.Fields, GObjField{Name: hx.Pick(g.r, []string{"k", "l", "a", "noSuchField"}) + fmt.Sprint(i), Value: g.freeValue(constant, depth+1)})
+		}
+		return out
+	case c == 5:
+		return &GValue{Kind: "string", Text: `"j"`}
+	case c == 6:
+		return &GValue{Kind: "null"}
+	case c == 7:
+		return &GValue{Kind: "enum", Text: "ANY"}
+	}
+	return &GValue{Kind: "int", Text: g.intLit()}
+}
+
+// freeVar: a variable used where there is no location type: any declared variable will do, or a
+// new one of some input type of the schema.
+func (g *docGen) freeVar() *GValue {
+	if len(g.varOrder) > 0 && g.r.Bool() {
+		return &GValue{Kind: "var", Text: hx.Pick(g.r, g.varOrder)}
+	}
+	cands := []*TypeRef{Named("String"), NonNull(Named("Boolean")), ListOf(Named("String"))}
+	for _, t := range g.v.Types {
+		if t.Kind == "scalar" || t.Kind == "enum" || t.Kind == "input" {
+			cands = append(cands, Named(t.Name), ListOf(NonNull(Named(t.Name))))
+		}
+	}
+	nv := &GVar{Name: fmt.Sprintf("v%d", len(g.varOrder)), Type: hx.Pick(g.r, cands)}
+	g.vars[nv.Name] = nv
+	g.varOrder = append(g.varOrder, nv.Name)
+	return &GValue{Kind: "var", Text: nv.Name}
+}
+
+func (g *docGen) scalarLit(name string, t *TypeDesc, constant bool) *GValue {
 	switch name {
 	case "Int":
 		return &GValue{Kind: "int", Text: g.intLit()}
@@ -224,8 +279,19 @@ func (g *docGen) scalarLit(name string, t *TypeDesc) *GValue {
 		}
 		return &GValue{Kind: "int", Text: hx.Pick(g.r, []string{"1", "9007199254740993", "-5"})}
 	}
-	// custom scalar: one of the accepted kinds
+	// custom scalar: one of the accepted kinds (list / object literals preferred when accepted)
 	k := hx.Pick(g.r, t.Accepts[1:])
+	if g.r.Chance(2, 3) {
+		var structured []string
+		for _, a := range t.Accepts[1:] {
+			if a == "list" || a == "object" {
+				structured = append(structured, a)
+			}
+		}
+		if len(structured) > 0 {
+			k = hx.Pick(g.r, structured)
+		}
+	}
 	switch k {
 	case "int":
 		return &GValue{Kind: "int", Text: "3"}
@@ -235,6 +301,18 @@ func (g *docGen) scalarLit(name string, t *TypeDesc) *GValue {
 		return &GValue{Kind: "string", Text: `"c"`}
 	case "bool":
 		return &GValue{Kind: "bool", Text: "true"}
+	case "list":
+		out := &GValue{Kind: "list"}
+		for i, n := 0, g.r.Range(0, 3); i < n; i++ {
+			out.Items = append(out.Items, g.freeValue(constant, 1))
+		}
+		return out
+	case "object":
+		out := &GValue{Kind: "object"}
+		for i, n := 0, g.r.Range(0, 3); i < n; i++ {
+			out.Fields = append(out.Fields, GObjField{Name: fmt.Sprintf("k%d", i), Value: g.freeValue(constant, 1)})
+		}
+		return out
 	default:
 		return &GValue{Kind: "enum", Text: "ANY"}
 	}
@@ -279,7 +357,7 @@ func (g *docGen) value1(t *TypeRef, locDefault, constant, inList bool, depth int
 	if td == nil {
 		// a built-in scalar the schema never mentions (not resolvable by name, still usable
 		// through the definitions that point at it)
-		return g.scalarLit(n.Name, &TypeDesc{Accepts: []string{"custom", "int"}})
+		return g.scalarLit(n.Name, &TypeDesc{Accepts: []string{"custom", "int"}}, constant)
 	}
 	switch td.Kind {
 	case "enum":
@@ -295,7 +373,7 @@ func (g *docGen) value1(t *TypeRef, locDefault, constant, inList bool, depth int
 		}
 		return out
 	default:
-		return g.scalarLit(n.Name, td)
+		return g.scalarLit(n.Name, td, constant)
 	}
 }
 
